@@ -902,12 +902,53 @@ pub fn gen_case(r: &mut Rng, p: Profile) -> Case {
             sanitize_special(b);
         }
     }
+    // structured shapes (full profile): creators whose structs / interned values flow to readers
+    let shape = if p == Profile::Full { r.below(10) } else { 0 };
     for k in 0..n {
         let kind = match p {
             Profile::Core => Kind::Plain,
             _ => [Kind::Plain, Kind::Plain, Kind::NoEq, Kind::Lru][r.usize(4)],
         };
-        let e = gen_e(r, p, k, &prog, 3, 0);
+        let small = |r: &mut Rng, prog: &Prog| -> Box<E> {
+            Box::new(if r.chance(2, 3) { E::In(r.usize(prog.ninputs)) } else { E::C(r.below(4) as u32) })
+        };
+        let e = match shape {
+            // handle flow: creators conditionally specify; readers ask spec / on_ts / fields
+            5..=7 if k < 2 => {
+                let mk = E::Mk(small(r, &prog), small(r, &prog), Box::new(E::In(r.usize(prog.ninputs))), small(r, &prog));
+                if r.chance(1, 3) { E::If(Box::new(E::In(r.usize(prog.ninputs))), Box::new(mk), Box::new(gen_e(r, p, k, &prog, 2, 0))) } else { mk }
+            }
+            5..=7 if r.chance(2, 3) => {
+                let src = Box::new(E::Call(r.usize(2.min(k))));
+                match r.below(6) {
+                    0 | 1 => E::Spec(src),
+                    2 => E::OnTs(src),
+                    3 => E::TsV(src),
+                    4 => E::Add(Box::new(E::Spec(src)), Box::new(gen_e(r, p, k, &prog, 1, 0))),
+                    _ => E::Add(Box::new(E::OnTs(src.clone())), Box::new(E::Spec(src))),
+                }
+            }
+            // interned churn: values come and go with the inputs
+            8 if r.chance(2, 3) => {
+                let i = Box::new(E::Intern(small(r, &prog)));
+                match r.below(3) {
+                    0 => E::SymF(i),
+                    1 => E::OnSym(i),
+                    _ => E::Add(Box::new(E::OnSym(i)), Box::new(gen_e(r, p, k, &prog, 1, 0))),
+                }
+            }
+            // accumulators under input-controlled branches
+            9 if r.chance(2, 3) => {
+                let push = E::Push(small(r, &prog));
+                let rest = gen_e(r, p, k, &prog, 2, 0);
+                if r.chance(1, 2) {
+                    E::If(Box::new(E::In(r.usize(prog.ninputs))), Box::new(E::Add(Box::new(push), Box::new(rest))), Box::new(gen_e(r, p, k, &prog, 2, 0)))
+                } else {
+                    E::Add(Box::new(rest), Box::new(push))
+                }
+            }
+            _ => gen_e(r, p, k, &prog, 3, 0),
+        };
         prog.nodes.push((kind, e));
     }
     let init: Vec<(u32, u8)> = (0..prog.ninputs).map(|_| (r.below(4) as u32, if r.chance(1, 2) { 0 } else { r.below(4) as u8 })).collect();
